@@ -125,8 +125,12 @@ def run_config(res: Result, cfgs):
                 continue
             if op[0] == "snap":
                 # Python restore path: a fresh scheduler gets the saved targets (as load_snapshot does)
+                # (exactly the order load_snapshot uses: periods, reset at the current cycle, then the saved targets)
+                saved = (py.next_mti, py.next_sti)
                 fresh = TimerScheduler(mti_period=py.mti_period, sti_period=py.sti_period, enabled=py.enabled)
-                fresh.next_mti, fresh.next_sti = py.next_mti, py.next_sti
+                fresh.reset(cycle_base=op[1])
+                fresh.next_mti = saved[0]
+                fresh.next_sti = saved[1]
                 py = fresh
                 continue
             if op[0] == "clear_isr":
